@@ -28,19 +28,20 @@ Inductive point :=
   | PStats       (* proxies.go: generalizeErr(err).Error() stored in the tunnel statistics *)
   | PStatsAsync  (* the same, written by the asynchronous source closer: the tunnel summary may be
                     printed before that goroutine has stored the string, so "empty" is allowed too *)
-  | PLib.        (* proxies.go / registration_ingest.go: printed through the lib's generalizeErr *)
+  | PLib         (* registration_ingest.go: wrapped with %w after the lib's generalizeErr *)
+  | PLibPlain.   (* registration_ingest.go: logger.Errorln(msg, generalizeErr(err)) with the lib's copy *)
 
 Definition expected (p : point) (e : eshape) : N :=
   match p with
   | PDiscard => let c := code (generalize Conns (Some e)) in if c =? 6 then 0 else c
   | PReadLoop | PPlain => code (generalize Conns (Some e))
-  | PStats | PStatsAsync | PLib => code (generalize Proxies (Some e))
+  | PStats | PStatsAsync | PLib | PLibPlain => code (generalize Proxies (Some e))
   end.
 
 Definition expected_leak (p : point) (e : eshape) : bool :=
   match p with
   | PDiscard | PReadLoop | PPlain => match generalize Conns (Some e) with Some g => mentions g | None => false end
-  | PStats | PStatsAsync | PLib => match generalize Proxies (Some e) with Some g => mentions g | None => false end
+  | PStats | PStatsAsync | PLib | PLibPlain => match generalize Proxies (Some e) with Some g => mentions g | None => false end
   end.
 
 (* case: point, injected shape, observed code, observed "address found in the captured text" *)
